@@ -222,14 +222,16 @@ theorem appendCopies_spec {tr : Nat → Nat → Treat} {n : Nat} {h0 : Store} (w
       WF h2 ∧ KeepsExcept t h h2 ∧ h.length ≤ h2.length ∧
       (∃ o, h2[t]? = some o ∧ o.mu = true) ∧
       ∃ news : List Slot, listElems h2 t = listElems h t ++ news ∧
-        ∀ m, news.map (absSlot (abs m h2)) = elems.map (absSlot (abs m h0)) := by
+        (∀ m, news.map (absSlot (abs m h2)) = elems.map (absSlot (abs m h0))) ∧
+        (∀ s ∈ news, ∀ y, ReachSlot h2 s y → h0.length ≤ y ∨ IsImm h2 y) := by
   intro elems
   induction elems with
   | nil =>
     intro h h2 wf _ _ htm _ e
     simp only [appendCopies, Option.some.injEq] at e
     subst e
-    exact ⟨wf, KeepsExcept.refl t h, Nat.le_refl _, htm, [], by simp, fun _ => rfl⟩
+    exact ⟨wf, KeepsExcept.refl t h, Nat.le_refl _, htm, [], by simp, fun _ => rfl,
+      fun s hs => by cases hs⟩
   | cons s rest ih =>
     intro h h2 wf ke hlen htm hel e
     cases s with
@@ -256,26 +258,35 @@ theorem appendCopies_spec {tr : Nat → Nat → Treat} {n : Nat} {h0 : Store} (w
           rw [pushBack_len]; exact Nat.le_trans hlen sb.len
         have htm1 : ∃ o, (pushBack h1 t (Slot.ref k'))[t]? = some o ∧ o.mu = true :=
           ⟨_, pushBack_get_self et1 mt hv, mt⟩
-        obtain ⟨wf2, ke2, hlen2, htm2, news, hl2, hab2⟩ :=
+        obtain ⟨wf2, ke2, hlen2, htm2, news, hl2, hab2, hsep2⟩ :=
           ih (pushBack h1 t (Slot.ref k')) h2 wf1' ke1 hlen1 htm1
             (fun q hq => hel q (List.mem_cons_of_mem _ hq)) e
+        have hunk' : ¬ Reach h1 k' t := by
+          intro hr
+          rcases hs t hr with h3 | ⟨o3, e3, m3⟩
+          · have := lt_of_get et; omega
+          · rw [et1] at e3; cases e3; rw [mt] at m3; cases m3
+        have kex : KeepsExcept t h1 h2 := (pushBack_keepsExcept h1 t _).trans ke2
         refine ⟨wf2, ((Keeps.except sb.keeps t).trans (pushBack_keepsExcept h1 t _)).trans ke2, ?_, htm2,
-          Slot.ref k' :: news, ?_, fun m => ?_⟩
+          Slot.ref k' :: news, ?_, fun m => ?_, fun s hsm y hy => ?_⟩
         · rw [pushBack_len] at hlen2
           exact Nat.le_trans sb.len hlen2
         · rw [hl2, listElems_pushBack et1 mt hv]
           have : listElems h1 t = listElems h t := by simp [listElems, et1, et]
           rw [this]; simp
         · -- the copy k' does not reach t, so later appends leave it alone
-          have hunk' : ¬ Reach h1 k' t := by
-            intro hr
-            rcases hs t hr with h3 | ⟨o3, e3, m3⟩
-            · have := lt_of_get et; omega
-            · rw [et1] at e3; cases e3; rw [mt] at m3; cases m3
-          have kex : KeepsExcept t h1 h2 := (pushBack_keepsExcept h1 t _).trans ke2
           simp only [List.map_cons, hab2 m, absSlot]
           rw [abs_keepsExcept wf1.closed kex hk' hunk' m, ha m,
             abs_keepsExcept wf0.closed ke hk0 hun m]
+        · rcases List.mem_cons.mp hsm with rfl | hsm'
+          · have hy1 : Reach h1 k' y := (reach_keepsExcept wf1.closed kex hk' hunk').mp hy
+            rcases hs y hy1 with h3 | ⟨o3, e3, m3⟩
+            · exact Or.inl (Nat.le_trans hlen h3)
+            · have hyt : y ≠ t := by
+                intro hh; subst hh
+                rw [et1] at e3; cases e3; rw [mt] at m3; cases m3
+              exact Or.inr ⟨o3, kex y o3 hyt e3, m3⟩
+          · exact hsep2 s hsm' y hy
 
 /-! ## `a + b` -/
 
@@ -355,7 +366,8 @@ theorem kvAdd_pure {tr : Nat → Nat → Treat} {n vf : Nat} {h h2 : Store} {a b
     (e : kvAdd AddTarget.copy tr n vf h a bl = some (h2, c)) :
     Keeps h h2 ∧ h.length ≤ c ∧
     (∀ m x, x < h.length → abs m h2 x = abs m h x) ∧
-    (∀ m, kidsAbs m vf h2 c = kidsAbs m vf h a ++ (listElems h bl).map (absSlot (abs m h))) := by
+    (∀ m, kidsAbs m vf h2 c = kidsAbs m vf h a ++ (listElems h bl).map (absSlot (abs m h))) ∧
+    (∀ x, Reach h2 c x → h.length ≤ x ∨ IsImm h2 x) := by
   unfold kvAdd at e
   cases n with
   | zero => simp [copyWith] at e
@@ -422,7 +434,7 @@ theorem kvAdd_pure {tr : Nat → Nat → Treat} {n vf : Nat} {h h2 : Store} {a b
           intro hr
           have := reach_lt wf.closed hkl ((reach_sub_iff wf.closed sb hkl).mp hr)
           omega
-        obtain ⟨wf2, ke2, _, htm2, news, hl2, hab2⟩ :=
+        obtain ⟨wf2, ke2, _, htm2, news, hl2, hab2, hsepn⟩ :=
           appendCopies_spec (tr := tr) (n := n + 1) wf1 (t := t)
             (fun o eo => by rw [eot1] at eo; cases eo; exact mot)
             (listElems (h1a ++ [oc]) bl) (h1a ++ [oc]) h2' wf1 (KeepsExcept.refl t _) (Nat.le_refl _)
@@ -432,7 +444,7 @@ theorem kvAdd_pure {tr : Nat → Nat → Treat} {n vf : Nat} {h h2 : Store} {a b
           intro x o ex
           have hx : x ≠ t := by have := lt_of_get ex; omega
           exact ke2 x o hx (sb.get ex)
-        refine ⟨keeps, Nat.le_trans (Nat.le_trans (by omega) sb1a.len) (Nat.le_refl _), ?_, fun m => ?_⟩
+        refine ⟨keeps, Nat.le_trans (Nat.le_trans (by omega) sb1a.len) (Nat.le_refl _), ?_, fun m => ?_, ?_⟩
         · intro m x hx
           exact abs_keeps wf.closed keeps m hx
         · -- children of the result
@@ -496,6 +508,62 @@ theorem kvAdd_pure {tr : Nat → Nat → Treat} {n vf : Nat} {h h2 : Store} {a b
               obtain ⟨p, hp, rfl⟩ := hs
               exact wf.closed bl ob eob p hp
             exact absSlot_sub wf.closed sb m hsv
+        · -- separation: the set S = (reachable from the copy before the loop) ∪ (reachable from a new
+          -- element) is closed under successors in the final store, and all its members are fresh or immutable
+          have immT : ∀ y, IsImm (h1a ++ [oc]) y → IsImm h2' y := by
+            intro y ⟨o3, e3, m3⟩
+            have hyt : y ≠ t := by
+              intro hh; subst hh
+              rw [eot1] at e3; cases e3; rw [mot] at m3; cases m3
+            exact ⟨o3, ke2 y o3 hyt e3, m3⟩
+          have hlen1 : h.length ≤ (h1a ++ [oc]).length := sb.len
+          have inS : ∀ y x, (Reach (h1a ++ [oc]) h1a.length y ∨ ∃ s ∈ news, ReachSlot h2' s y) →
+              Reach h2' y x →
+              (Reach (h1a ++ [oc]) h1a.length x ∨ ∃ s ∈ news, ReachSlot h2' s x) := by
+            intro y x hy hr
+            induction hr with
+            | refl _ => exact hy
+            | @step l0 o0 f0 r0 x0 e0 hm0 _ ih =>
+              apply ih
+              rcases hy with hy | ⟨s, hs, hy⟩
+              · by_cases hlt : l0 = t
+                · subst hlt
+                  -- successors of t: old elements or new ones
+                  obtain ⟨o2, e2, _⟩ := htm2
+                  rw [e0] at e2; cases e2
+                  have hmem : Slot.ref r0 ∈ listElems h2' l0 := by
+                    simp only [listElems, e0, List.mem_map]
+                    exact ⟨(f0, Slot.ref r0), hm0, rfl⟩
+                  rw [hl2] at hmem
+                  rcases List.mem_append.mp hmem with h5 | h5
+                  · left
+                    simp only [listElems, eot1, List.mem_map] at h5
+                    obtain ⟨p, hp, hp2⟩ := h5
+                    obtain ⟨pf, ps⟩ := p
+                    simp only at hp2
+                    subst hp2
+                    exact reach_trans hy (Reach.step eot1 hp (Reach.refl r0))
+                  · right
+                    exact ⟨Slot.ref r0, h5, Reach.refl r0⟩
+                · left
+                  have hl0 : l0 < (h1a ++ [oc]).length := reach_lt wf1.closed hlc hy
+                  obtain ⟨o1, e1⟩ := get_of_lt hl0
+                  have := ke2 l0 o1 hlt e1
+                  rw [e0] at this; cases this
+                  exact reach_trans hy (Reach.step e1 hm0 (Reach.refl r0))
+              · right
+                refine ⟨s, hs, ?_⟩
+                cases s with
+                | val _ => exact hy.elim
+                | ref q => exact reach_trans hy (Reach.step e0 hm0 (Reach.refl r0))
+          intro x hx
+          rcases inS h1a.length x (Or.inl (Reach.refl _)) hx with h6 | ⟨s, hs, h6⟩
+          · rcases hsep x h6 with h7 | h7
+            · exact Or.inl h7
+            · exact Or.inr (immT x h7)
+          · rcases hsepn s hs x h6 with h7 | h7
+            · exact Or.inl (Nat.le_trans hlen1 h7)
+            · exact Or.inr h7
 
 /-! ## `a += b` / `a.extend(b)` -/
 
@@ -513,7 +581,7 @@ theorem kvIAdd_spec {tr : Nat → Nat → Treat} {n vf : Nat} {h h2 : Store} {a 
   unfold kvIAdd at e
   simp only [hka] at e
   obtain ⟨ota, eota, mota⟩ := hmta
-  obtain ⟨wf2, ke2, _, _, news, h1, h2'⟩ :=
+  obtain ⟨wf2, ke2, _, _, news, h1, h2', _⟩ :=
     appendCopies_spec (tr := tr) (n := n) wf (t := ta)
       (fun o eo => by rw [eota] at eo; cases eo; exact mota)
       (listElems h bl) h h2 wf (KeepsExcept.refl ta h) (Nat.le_refl _) ⟨ota, eota, mota⟩ hel e
